@@ -13,6 +13,7 @@ import GocoinV.Proofs.C02Cache
 import GocoinV.Proofs.C02Spec
 import GocoinV.Proofs.C02Legacy
 import GocoinV.Proofs.C02DelSig
+import GocoinV.Proofs.C02Tail
 namespace GocoinV.Props.C02
 open GocoinV GocoinV.SigHash
 open GocoinV.Wire (Tx TxIn TxOut)
@@ -41,11 +42,28 @@ theorem legacy_defined (tx : Tx) (scriptCode : Bytes) (idx ht : Nat) (hi : idx <
   | none => simp [h] at hp
   | some ops => simp only [this, ↓reduceIte]; split <;> rfl
 
--- OPEN: `tail_irrelevant` (DESIGN §6 C02 (d)): for a script code with a decode error after the executed
--- position gocoin drops the tail (`break`) while Core's serializer keeps part of it; every caller has
--- verdict `false` there (evalScript fails on the undecodable opcode). That needs the script interpreter
--- model of C01; here such script codes are outside `Spec.legacy` (it returns `none`) and are only compared
--- model-vs-code by the harness.
+/-- `tail_irrelevant` (DESIGN §6 C02 (d)), proved against C01's model of gocoin's interpreter
+    (Model/ScriptEval.lean): a script with a decode error ANYWHERE (a truncated push; `ScriptSpec.parse` reports
+    a decode error behind its last well-formed instruction) never evaluates to true — for every stack, flag set,
+    signature version, execution data and EVERY oracle instance (also partial ones), `evalScript` returns
+    false / an oracle request, never `ok`. The script code handed to `SignatureHash` is the executed script from
+    the last executed OP_CODESEPARATOR on (an instruction boundary), so a script code that does not decode — the
+    only place where gocoin's `break` (tail dropped) and the original serializer (part of the tail kept) can
+    produce different preimages, and where `Spec.legacy` is undefined — lies inside a script whose evaluation is
+    already `false`: the difference cannot change a verdict.
+    -- OPEN: `tail_irrelevant` with the decode error expressed by C02's OWN parser (`Spec.SigHash.parse sc = none`)
+    instead of C01's reference parser: needs `Spec.SigHash.nextOp s = none ↔ ScriptSpec.parseOne s = none` (two
+    independently written spec-level decoders; the example below checks them on a truncated push), and the lemma
+    "a decode error in a suffix at an instruction boundary is a decode error of the script". -/
+theorem tail_irrelevant_partial (O : Script.Oracles) (tx : Script.TxCtx) (flags : Nat) (p : Bytes)
+    (stack : Script.Stack) (sv : Script.SigVersion) (ed : Script.ExecData)
+    (h : (ScriptSpec.parse p).2 = true) (s : Script.Stack) :
+    Script.evalScript O tx flags p stack sv ed ≠ .ok s :=
+  Proofs.C02T.evalScript_bad O tx flags p stack sv ed h s
+
+/-- non-vacuity: `OP_1 <push of 2 bytes, 1 present>` has a decode error for both spec-level parsers, and gocoin's
+    `SignatureHash` model still returns a digest for it as script code (the tail is dropped) -/
+example : (ScriptSpec.parse [0x51, 0x02, 0x01]).2 = true ∧ Spec.SigHash.parse [0x51, 0x02, 0x01] = none := by decide
 
 /-- Signature removal: for every script code that decodes into operations and every signature (any
     length: direct push below 76 bytes, PUSHDATA1 for 76..255, PUSHDATA2 for 256..65535, PUSHDATA4 above),
